@@ -136,6 +136,10 @@ theorem aliasUnique_step (ctx : Ctx) (g g' : Graph) (op : Op) (out : Outcome)
       rw [abs_node_some hd] at hv
       cases hv
 
+-- non-vacuity: the example universe satisfies `TyWF` (`ctxW_wf`), the example state the rest
+example : TyWF ctxW ∧ Inv ctxW gR ∧ AliasUnique gR ∧ (step ctxW gR (.alias 1 ['a'])).2 = .ok (.node 7) :=
+  ⟨ctxW_wf.2, by decide⟩
+
 /-! ### over all histories -/
 
 /-- the empty graph abstracts to the empty abstract state -/
@@ -278,5 +282,10 @@ theorem unregister_abs (ctx : Ctx) (g g' : Graph) (id : PkgId) (h : Inv ctx g) (
     simp only [Prod.mk.injEq, and_true] at ha
     rw [← ha]
     refine ⟨fun m => rfl, by simp [upd], fun pid hne => by simp [upd, hne, Abs.removeSet]⟩
+
+-- non-vacuity: unregistering `p` in the example state removes its two instantiations and the alias
+example : (step ctxW gR (.unregister ⟨0, 0⟩)).2 = .ok .unit ∧
+    (step ctxW gR (.unregister ⟨0, 0⟩)).1.nodeIds = [3, 4, 5, 6] ∧
+    (List.range 7).filter ((abs gR).ofPkg ⟨0, 0⟩) = [0, 1, 2] := by decide
 
 end Wac.Props.C06Refine
